@@ -159,6 +159,29 @@ pub fn run(a: &Args) -> i32 {
                 }
             }
         }
+        // (c'') the generator that has first answered every OTHER public query about this very
+        // board — attack maps and in-check for both colours, the game-ending verdict, plain and
+        // annotated move lists, notation — and then counts
+        {
+            use chess::evaluate;
+            for d in 0..=dmax.min(if thorough { 2 } else { 1 }) {
+                let mut g = MoveGenerator::new();
+                let mut b = build_board(&p);
+                let turn = color_of(p.stm);
+                let _ = guarded(|| {
+                    for side in [Side::White, Side::Black] {
+                        let _ = g.get_attack_targets(&b, color_of(side));
+                        let _ = evaluate::player_is_in_check(&b, &mut g, color_of(side));
+                    }
+                    let _ = evaluate::game_ending(&mut b, &mut g, turn);
+                    let _ = g.generate_moves(&mut b, turn);
+                    let _ = g.generate_moves_and_lazily_update_chess_move_effects(&mut b, turn);
+                    let _ = chess::chess_move::algebraic_notation::enumerate_candidate_moves_with_algebraic_notation(&mut b, turn, &mut g);
+                });
+                let r = call(&mut g, &p, d, None);
+                check("generator that first answered every other query about the same board", s, &p, d, r, tab, &mut calls, &mut counted);
+            }
+        }
         // (a'') the same generator histories inside pools of one and two threads (a single-thread pool
         // may take a sequential path through the caller's own generator): deepening 0..D with one
         // generator, and the other colour first, for the small seeds and the initial position
